@@ -96,6 +96,25 @@ impl Eng {
         let u64_ = |i: usize| -> Option<u64> { t.get(i)?.parse::<u64>().ok() };
         let now: i64 = t.get(3)?.parse().ok()?;
         h_store::set_now(now);
+        if t[1] == "uninit" {
+            // zeroed GtState that was never initialised (grow_step_amount = 0)
+            if t.len() != 5 { return None; }
+            let n = u64_(4)? as usize;
+            let store = Pubkey::new_unique();
+            let mut users = vec![UserHeader::zeroed(); n];
+            let mut exchanges = vec![GtExchange::zeroed(); n];
+            let vault_key = Pubkey::new_unique();
+            for (u, x) in users.iter_mut().zip(exchanges.iter_mut()) {
+                let owner = Pubkey::new_unique();
+                hk::user_init(u, &store, &owner, 255).expect("user init");
+                hk::exchange_init(x, 255, &owner, &store, &vault_key).expect("exchange init");
+            }
+            let w = World { gt: Box::new(GtState::zeroed()), users, exchanges, vault: Box::new(GtExchangeVault::zeroed()),
+                ranks: vec![], cost0: 0, factor: 0, step: 0, touched: vec![false; n], vault_ts: 0, vault_tw: 0, grown: std::cell::RefCell::new((0, BigUint::from(0u8))) };
+            let d = digest(&w);
+            self.worlds.insert(sid, w);
+            return Some(format!("ok | {d}"));
+        }
         if t[1] == "new" {
             if t.len() < 8 { return None; }
             let cost: u128 = t[4].parse().ok()?; let factor: u128 = t[5].parse().ok()?;
@@ -177,8 +196,13 @@ fn oracle(w: &World, before: Option<&World>, req: &[&str], resp: &str, now: i64,
     if g.supply() as u128 != sum { viol.push(format!("supply {} ≠ Σ balances {sum}", g.supply())); }
     if let Some(b) = before { if g.total_minted() < b.gt.total_minted() { viol.push("total minted decreased".into()); } }
     // cost depends only on total minted: initial cost grown (total / step) times
-    let steps = g.total_minted() / w.step;
-    {
+    if w.step == 0 {
+        // never initialised: nothing can be minted, the cost bookkeeping stays zero
+        if g.total_minted() != 0 || g.minting_cost() != 0 || g.grow_steps() != 0 || g.supply() != 0 { viol.push("an uninitialised GT state changed".into()); }
+        if (req[1] == "mint" || req[1] == "mintvalue") && resp.starts_with("ok") && g.total_minted() != 0 { viol.push("minted on an uninitialised GT state".into()); }
+    }
+    let steps = if w.step == 0 { 0 } else { g.total_minted() / w.step };
+    if w.step != 0 {
         let mut cache = w.grown.borrow_mut();
         if steps >= cache.0 && steps - cache.0 <= 200_000 {
             let (unit, f, lim) = (BigUint::from(UNIT), BigUint::from(w.factor), BigUint::from(1u8) << 128);
@@ -233,6 +257,25 @@ fn gen_history(r: &mut Rng, sid: u64, len: u64, out: &mut Vec<String>) {
     let mut t = if r.chance(1, 25) { 0 } else { r.range(1, 50) };
     for _ in 0..nr { ranks.push(t); t += r.range(1, 200); }
     if r.chance(1, 30) && ranks.len() >= 2 { ranks.swap(0, 1); } // unsorted ⇒ rejected
+    if r.chance(1, 25) {
+        // never-initialised GT state: every non-zero mint must fail with Config, the window ops still work
+        let n = r.range(1, 3);
+        out.push(format!("gt uninit {sid} {now} {n}"));
+        for _ in 0..len.min(12) {
+            now += r.range(0, 500) as i64;
+            let uid = r.below(n);
+            match r.below(8) {
+                0 | 1 => out.push(format!("gt mint {sid} {now} {uid} {}", if r.chance(1, 4) { 0 } else { r.range(1, 1000) })),
+                2 => out.push(format!("gt mintvalue {sid} {now} {uid} {}", r.num(128))),
+                3 => out.push(format!("gt burn {sid} {now} {uid} {}", r.below(2))),
+                4 => out.push(format!("gt vaultinit {sid} {now} {}", r.below(300))),
+                5 => out.push(format!("gt request {sid} {now} {uid} {}", r.below(2))),
+                6 => out.push(format!("gt confirm {sid} {now}")),
+                _ => out.push(format!("gt {} {sid} {now}", if r.chance(1, 2) { "depositable" } else { "confirmable" })),
+            }
+        }
+        return;
+    }
     let step = match r.below(24) { 0 => 0, 1 | 2 => 1, _ => r.range(2, 500) };
     let cost: u128 = match r.below(6) { 0 => 0, 1 => r.range(1, 9) as u128, _ => UNIT / 100 * r.range(1, 50) as u128 };
     let factor: u128 = match r.below(8) { 0 => UNIT, 1 => 2 * UNIT, 2 => UNIT / 2, 3 => r.num(128), 4 | 5 => UNIT + UNIT / 10u128.pow(r.range(5, 8) as u32) * r.range(1, 9) as u128, _ => UNIT + UNIT / 1000 * r.range(1, 100) as u128 };
